@@ -47,9 +47,9 @@ Definition save (es : list ientry) (data_size : N) : option (list N) :=
   end.
 
 (* FileIndex.load(index_path, data_path, delete_on_error=True) for an existing index file and an existing
-   data file.  Accept i: load returns, self._data = i.  Rebuild del: ValueError (del = the index file was
+   data file.  Accepted i: load returns, self._data = i.  Rebuild del: ValueError (del = the index file was
    removed first).  Crash: IndexError (not a ValueError: not caught by fast_generate_index). *)
-Inductive outcome := Accept (i : list ientry) | Rebuild (deleted : bool) | Crash.
+Inductive outcome := Accepted (i : list ientry) | Rebuild (deleted : bool) | Crash.
 
 Definition is_nil {A} (l : list A) : bool := match l with [] => true | _ => false end.
 
@@ -65,11 +65,59 @@ Definition load_legacy (idx d : list N) : outcome :=
   | Some e =>
       if is_invalid_type e then
         (* marker: expected size = its offset; the marker is dropped *)
-        if N.eqb size (i_off e) then Accept (removelast data) else Rebuild false
+        if N.eqb size (i_off e) then Accepted (removelast data) else Rebuild false
       else
         (* last_offset > data_file_size - 24  (Python int arithmetic: the right side may be negative) *)
         if N.ltb size (i_off e + N.of_nat HEADER_SIZE) then Rebuild true
         else
           let expected := (i_off e + N.of_nat HEADER_SIZE + header_psize_at d (N.to_nat (i_off e)))%N in
-          if negb (N.eqb expected size) then Rebuild true else Accept data
+          if negb (N.eqb expected size) then Rebuild true else Accepted data
   end.
+
+(* the loader after the two repairs: (1) an index without entries for an empty data file is consistent and is
+   accepted as the empty index (before: self.type[-1] raised IndexError); (2) the marker-mismatch branch deletes
+   the index file like every other mismatch branch (before: the stale file stayed when re-indexing found nothing) *)
+Definition load (idx d : list N) : outcome :=
+  let data := map from_raw (parse_records idx) in
+  let size := N.of_nat (length d) in
+  if N.eqb size 0 && negb (is_nil data) then Rebuild true
+  else if negb (N.eqb size 0) && is_nil data then Rebuild true
+  else match last_opt data with
+  | None => Accepted []                                          (* elif len(self) == 0: return *)
+  | Some e =>
+      if is_invalid_type e then
+        if N.eqb size (i_off e) then Accepted (removelast data) else Rebuild true
+      else
+        if N.ltb size (i_off e + N.of_nat HEADER_SIZE) then Rebuild true
+        else
+          let expected := (i_off e + N.of_nat HEADER_SIZE + header_psize_at d (N.to_nat (i_off e)))%N in
+          if negb (N.eqb expected size) then Rebuild true else Accepted data
+  end.
+
+(* ---- opening a log: fast_generate_index(input_path, force_reindex=ignore_index, save_index=True) followed by
+   reading every message through the resulting index (MixedLogReader) ------------------------------------- *)
+Record opened := mkO { o_msgs : list (nat * list N);      (* what iterating the reader returns: offset, bytes *)
+                       o_p1i : option (list N) }.         (* the .p1i on disk afterwards *)
+Inductive openres := Opened (o : opened) | OpenCrash.
+
+Section Open.
+  Variable p1 : list N -> option N.
+  Variable loader : list N -> list N -> outcome.
+
+  (* the indexing branch: index = fresh index; index.save(index_path, input_path) *)
+  Definition regenerate (d : list N) (cur : option (list N)) : opened :=
+    let i := fresh p1 d in
+    mkO (read_all d (index_offsets i))
+        (match save i (N.of_nat (length d)) with Some b => Some b | None => cur end).
+
+  Definition open_log (p1i : option (list N)) (d : list N) (ignore_index : bool) : openres :=
+    match (if ignore_index then None else p1i) with
+    | None => Opened (regenerate d p1i)
+    | Some idx =>
+        match loader idx d with
+        | Accepted i => Opened (mkO (read_all d (index_offsets i)) p1i)
+        | Rebuild del => Opened (regenerate d (if del then None else p1i))   (* except ValueError: fall through *)
+        | Crash => OpenCrash                                                   (* any other exception propagates *)
+        end
+    end.
+End Open.
